@@ -118,6 +118,7 @@ type case = {
   mutable inputs : (nat * nat) list;
   mutable regs : reg list;
   mutable nets : (expr option * expr option) list;
+  mutable scopes : (char * expr option) list option list;   (* per register: None = enable attached directly *)
   mutable order : nat list option;
   mutable rstev : ((q * nat) * bool) list;
   mutable stim : (q * (nat * bv) list) list;
@@ -154,10 +155,19 @@ let run_case (c : case) =
   let cfg = { cfg_clocks = clocks; cfg_regs = c.regs; cfg_inputs = c.inputs; cfg_order = order;
               cfg_rstev = c.rstev; cfg_stim = c.stim } in
   let nets = Array.of_list c.nets in
+  let scopes = Array.of_list c.scopes in
   let comb : network = fun outs ins r ->
     let (d, en) = nets.(int_of_nat r) in
     let d' = match d with None -> None | Some e -> Some (eval outs ins e) in
-    let en' = match en with None -> None | Some e -> (match eval outs ins e with [ b ] -> Some b | _ -> failwith "enable must be one bit") in
+    let bit e = match eval outs ins e with [ b ] -> b | _ -> failwith "enable / condition must be one bit" in
+    let en' = match scopes.(int_of_nat r) with
+      | None -> (match en with None -> None | Some e -> Some (bit e))
+      | Some sc ->
+        (* the condition VALUES go through the extracted scope model (EnableScope / ConditionalScope accumulation) *)
+        scope_enable (List.map (fun (k, e) ->
+            match k, e with
+            | 'E', Some e -> SC_EN (bit e) | 'I', Some e -> SC_IF (bit e) | 'L', Some e -> SC_ELSE (bit e)
+            | 'A', _ -> SC_ALWAYS | _ -> failwith "bad scope") sc) in
     (d', en') in
   List.iter (fun (((i, pin), rst), f) ->
       Printf.printf "A %d pin=%d rst=%s f=%s\n" (int_of_nat i) (int_of_nat pin)
@@ -180,7 +190,7 @@ let () =
   if Array.length Sys.argv > 2 then shuffle_seed := int_of_string Sys.argv.(2);
   let ic = open_in Sys.argv.(1) in
   let cur = ref None in
-  let fresh id = { id; clocks = []; inputs = []; regs = []; nets = []; order = None; rstev = []; stim = []; steps = 0 } in
+  let fresh id = { id; clocks = []; inputs = []; regs = []; nets = []; scopes = []; order = None; rstev = []; stim = []; steps = 0 } in
   (try
      while true do
        let line = input_line ic in
@@ -211,7 +221,15 @@ let () =
             let rv = match kv tok "rstval" with "-" -> None | b -> Some (bv_of_string b) in
             c.regs <- c.regs @ [ { rg_clk = nat_of_int (int_of_string (kv tok "clk")); rg_width = nat_of_int (int_of_string (kv tok "w")); rg_rstval = rv } ];
             let ex s = if s = "-" then None else Some (parse_expr s) in
-            c.nets <- c.nets @ [ (ex (kv tok "d"), ex (kv tok "en")) ]
+            c.nets <- c.nets @ [ (ex (kv tok "d"), ex (kv tok "en")) ];
+            let sc = match List.find_opt (fun t -> String.length t >= 7 && String.sub t 0 7 = "scopes=") tok with
+              | None -> None
+              | Some t ->
+                Some (List.map (fun x ->
+                    if x = "A" then ('A', None)
+                    else (x.[0], Some (parse_expr (String.sub x 2 (String.length x - 2)))))
+                    (List.filter (fun x -> x <> "") (String.split_on_char ';' (String.sub t 7 (String.length t - 7))))) in
+            c.scopes <- c.scopes @ [ sc ]
           | "order" :: l -> c.order <- Some (List.map (fun s -> nat_of_int (int_of_string s)) l)
           | [ "rstev"; t; clk; lv ] -> c.rstev <- c.rstev @ [ ((q_of_string t, nat_of_int (int_of_string clk)), lv = "1") ]
           | "stim" :: t :: ws ->
